@@ -288,6 +288,57 @@ pub fn run_case(tape: &mut Tape, _tier: Tier, _p: &CaseParams) -> CaseOutcome {
     }
   }
   tamper(tape, &mut world);
+  // a divergent alias: a URL answered with another final specifier and with
+  // bytes that differ from what that final specifier itself serves, while the
+  // lockfile holds the checksum of the latter; the same module imports the
+  // final specifier directly afterwards (so that its own load is already
+  // outstanding when the alias' answer is processed)
+  if world.registry.packages.is_empty() && tape.draw(Stream::World, 5) == 4 {
+    let targets: Vec<String> = world
+      .remote
+      .iter()
+      .filter(|(u, e)| {
+        u.starts_with("http")
+          && world.descs.get(*u).is_some_and(|d| d.lang.is_script())
+          && matches!(e, Entry::Module { final_url: None, .. })
+          && !world.cache.contains_key(*u)
+      })
+      .map(|(u, _)| u.clone())
+      .collect();
+    let importer = world
+      .roots
+      .first()
+      .and_then(|r| world.descs.get(r))
+      .filter(|d| d.lang.is_script() && !d.lang.is_declaration())
+      .cloned();
+    if let (false, Some(mut imp)) = (targets.is_empty(), importer) {
+      let to = targets[tape.draw(Stream::World, targets.len() as u32) as usize].clone();
+      if let Some(Entry::Module { bytes, headers, .. }) = world.remote.get(&to).cloned() {
+        let alias = format!("{}stale_alias.ts", H_B);
+        let mut stale = bytes.clone();
+        stale.extend_from_slice(b"\n// stale copy served under the alias\n");
+        world.remote.insert(
+          alias.clone(),
+          Entry::Module {
+            bytes: stale,
+            headers,
+            final_url: Some(to.clone()),
+          },
+        );
+        world.lockfile.remote.insert(to.clone(), sha256_hex(&bytes));
+        let first = tape.draw(Stream::World, 3) != 0;
+        if first {
+          imp.items.push(Item::new(Form::SideEffect, alias.clone()));
+          imp.items.push(Item::new(Form::SideEffect, to.clone()));
+        } else {
+          imp.items.push(Item::new(Form::SideEffect, to.clone()));
+          imp.items.push(Item::new(Form::SideEffect, alias.clone()));
+        }
+        world.add_desc(imp);
+        out.count("probe.divergent_alias_world", 1);
+      }
+    }
+  }
   let mut sem = SemOpts::draw(tape);
   sem.with_locker = true;
   // asset imports are only loaded when their attribute type is enabled
@@ -796,6 +847,59 @@ pub fn run_case(tape: &mut Tape, _tier: Tier, _p: &CaseParams) -> CaseOutcome {
         "new-checksums-recorded",
         "manifest-checksum-recorded-with-different-values",
         format!("{} was recorded with {:?}", nv, vals),
+        ctx(json!({"nv": nv})),
+      );
+      return out;
+    }
+  }
+  // (5b) completeness: every version manifest that was delivered intact to a
+  // real request (not the cached-version probe) and that the lockfile did not
+  // know is handed to the lockfile interface - whatever happens to the files
+  // loaded afterwards
+  // (a cache-busting restart abandons the first pass: its manifests may
+  // never be used)
+  let restart_seq = r1
+    .loads
+    .iter()
+    .filter(|l| {
+      l.id.nth >= 1
+        && l.id.cs == CS_USE
+        && !l.id.ensure
+        && world.roots.contains(&l.id.url)
+    })
+    .map(|l| l.seq)
+    .max()
+    .unwrap_or(0);
+  for l in &r1.loads {
+    let Some(nv) = is_version_manifest(&l.id.url) else { continue };
+    if l.answer != "module"
+      || l.id.cs == CS_ONLY
+      || l.seq < restart_seq
+      || initial_pkg.contains_key(&nv)
+    {
+      continue;
+    }
+    let Some(b) = &l.served else { continue };
+    // only manifests the builder can read
+    let readable = serde_json::from_slice::<Value>(b).is_ok_and(|m| {
+      m.is_object()
+        && (m["exports"].is_string() || m["exports"].is_object())
+        && (m.get("manifest").is_none() || m["manifest"].is_object())
+    });
+    if !readable {
+      continue;
+    }
+    out.count("probe.new_version_manifest_delivered", 1);
+    if !pkg_sets.contains_key(&nv) {
+      out.violation(
+        "C05",
+        "new-checksums-recorded",
+        "new-version-manifest-not-recorded",
+        format!(
+          "the version manifest of {} was delivered ({}) and the lockfile had no entry for it, yet set_pkg_manifest_checksum was never called for it",
+          nv,
+          l.id.label()
+        ),
         ctx(json!({"nv": nv})),
       );
       return out;
